@@ -23,11 +23,11 @@ import (
 type vOp struct {
 	Op       string `json:"op"` // send | verify | adv
 	Pair     int    `json:"pair"`
-	Code     string `json:"code"`      // verify: right | wrong | other (another pair's code)
-	Hash     string `json:"hash"`      // verify: right | wrong | other | stale (hash of the previous send to this pair)
-	As       int    `json:"as"`        // verify: pair whose (area, phone) is presented (-1 = same as Pair)
-	AdvSec   int    `json:"adv_sec"`   // adv
-	AdvToKey string `json:"adv_to"`    // adv: "", or jump relative to a threshold: ttl- ttl+ min- min+ cnt- cnt+ (just before / after)
+	Code     string `json:"code"`    // verify: right | wrong | other (another pair's code)
+	Hash     string `json:"hash"`    // verify: right | wrong | other | stale (hash of the previous send to this pair)
+	As       int    `json:"as"`      // verify: pair whose (area, phone) is presented (-1 = same as Pair)
+	AdvSec   int    `json:"adv_sec"` // adv
+	AdvToKey string `json:"adv_to"`  // adv: "", or jump relative to a threshold: ttl- ttl+ min- min+ cnt- cnt+ (just before / after)
 }
 
 type C19Scenario struct {
@@ -39,6 +39,7 @@ type C19Scenario struct {
 	CntHalf  int    `json:"cnt_half_s"`
 	MaxCount int    `json:"max_count"`
 	MaxVer   int    `json:"max_verify"`
+	Cache    int64  `json:"cache_size"` // record store capacity; small values put records under eviction pressure
 	Ops      []vOp  `json:"ops"`
 	Seed     int64  `json:"seed"`
 	NCodes   int    `json:"ncodes"`
@@ -62,7 +63,11 @@ func drawC19(rt *rapid.T) interface{} {
 	sc.CntHalf = rapid.SampledFrom([]int{0, 10, 100, 1000000}).Draw(rt, "cnt")
 	sc.MaxCount = rapid.SampledFrom([]int{0, 1, 2, 3, 10}).Draw(rt, "maxcount")
 	sc.MaxVer = rapid.SampledFrom([]int{0, 1, 2, 3, 5}).Draw(rt, "maxver")
+	sc.Cache = rapid.SampledFrom([]int64{1000, 1000, 1000, 2, 3}).Draw(rt, "cachesize")
 	np := rapid.IntRange(1, 3).Draw(rt, "npairs")
+	if sc.Cache < 10 {
+		np = rapid.IntRange(2, 5).Draw(rt, "npairs-pressure")
+	}
 	var used []int
 	for i := 0; i < np; i++ {
 		used = append(used, rapid.IntRange(0, len(pairs)-1).Draw(rt, "pair"))
@@ -173,7 +178,10 @@ func runC19(t *testing.T, sci interface{}, keepLog bool) *hx.Outcome {
 		return finish()
 	}
 
-	cfg := &vcode.Config{CacheSize: 1000, Mock: sc.Mock, CodeLen: sc.CodeLen, TTL: tex.Duration(half(sc.TTLHalf)), MinInterval: tex.Duration(half(sc.MinHalf)),
+	if sc.Cache == 0 {
+		sc.Cache = 1000
+	}
+	cfg := &vcode.Config{CacheSize: sc.Cache, Mock: sc.Mock, CodeLen: sc.CodeLen, TTL: tex.Duration(half(sc.TTLHalf)), MinInterval: tex.Duration(half(sc.MinHalf)),
 		CounterDuration: tex.Duration(half(sc.CntHalf)), MaxCount: sc.MaxCount, MaxVerifyCount: sc.MaxVer}
 	l := vcode.NewSimpleLogic(cfg, sms, nil)
 	recs := map[int]*mRec{}
@@ -192,12 +200,59 @@ func runC19(t *testing.T, sci interface{}, keepLog bool) *hx.Outcome {
 	ttl, minI, cnt := half(sc.TTLHalf), half(sc.MinHalf), half(sc.CntHalf)
 	since := func(t0 int64) time.Duration { return time.Duration(now-t0) * time.Second }
 
+	// eviction pressure (small record store): a record may be lost once at least `Cache` other pairs were touched (sent to, or
+	// looked up by a verification) after its own last touch; from then on the pair is "tainted" and only exercised, not judged
+	var touchSeq int64
+	lastTouch := map[int]int64{}
+	tainted := map[int]bool{}
+	touch := func(pi int) { touchSeq++; lastTouch[pi] = touchSeq }
+	retaint := func() {
+		for pi := range recs {
+			n := 0
+			for k := 0; k < len(pairs); k++ {
+				if k != pi && lastTouch[k] > lastTouch[pi] {
+					n++
+				}
+			}
+			if int64(n) >= sc.Cache && !tainted[pi] {
+				tainted[pi] = true
+				o.Counts["pair-under-eviction-pressure"]++
+			}
+		}
+	}
 	for i, op := range sc.Ops {
 		if o.Class != "" {
 			break
 		}
+		retaint()
 		p := pairs[op.Pair]
 		r := recs[op.Pair]
+		if op.Op != "adv" {
+			judged := op.Pair
+			if op.Op == "verify" && op.As >= 0 {
+				judged = op.As
+			}
+			if tainted[op.Pair] || tainted[judged] {
+				// exercise only
+				if op.Op == "send" {
+					hash, err := l.SendSMSCode(p[0], p[1])
+					log = append(log, fmt.Sprintf("%d t=%d send %s/%s (not judged: eviction pressure) -> %s %v", i, now-1700000000, p[0], p[1], hname(hash), err))
+					if err == nil {
+						touch(op.Pair)
+					}
+				} else {
+					err := l.VerifySMSCode(pairs[judged][0], pairs[judged][1], "000", "nohash")
+					log = append(log, fmt.Sprintf("%d t=%d verify %s/%s (not judged: eviction pressure) -> %v", i, now-1700000000, pairs[judged][0], pairs[judged][1], err))
+					if err == nil {
+						fail("verification-succeeded-wrongly", "%s/%s: verification succeeded with a made-up code and hash", pairs[judged][0], pairs[judged][1])
+					}
+					if err != nil && !strings.Contains(err.Error(), "not.exist") {
+						touch(judged)
+					}
+				}
+				continue
+			}
+		}
 		switch op.Op {
 		case "adv":
 			// jump to just before / after a threshold measured from the pair's last send / window start
@@ -292,6 +347,7 @@ func runC19(t *testing.T, sci interface{}, keepLog bool) *hx.Outcome {
 			r.prevHash = r.hash
 			r.code, r.hash, r.lastSend, r.attempts = code, hash, now, 0
 			r.inWindow++
+			touch(op.Pair)
 			o.Counts["send-accepted"]++
 		case "verify":
 			if r == nil || r.code == "" {
@@ -350,6 +406,9 @@ func runC19(t *testing.T, sci interface{}, keepLog bool) *hx.Outcome {
 				continue
 			}
 			target.attempts++
+			if err == nil || !strings.Contains(err.Error(), "not.exist") {
+				touch(map[bool]int{true: op.As, false: op.Pair}[op.As >= 0 && op.As != op.Pair])
+			}
 			overLimit := target.attempts > sc.MaxVer
 			alive := since(target.lastSend) < ttl
 			if overLimit {
